@@ -95,8 +95,13 @@ func TestVerif_C09Remote(t *testing.T) {
 			}
 			dataOK := !r.chance(25)
 			be.DataErr = nil
+			bodyBreaks := false
 			if !dataOK {
-				be.DataErr = &smtp.SMTPError{Code: 451, EnhancedCode: smtp.EnhancedCode{4, 0, 0}, Message: "try later"}
+				if r.chance(40) {
+					bodyBreaks = true // the body cannot be read to its end: the transfer fails in the middle
+				} else {
+					be.DataErr = &smtp.SMTPError{Code: 451, EnhancedCode: smtp.EnhancedCode{4, 0, 0}, Message: "try later"}
+				}
 			}
 			meta := &module.MsgMetadata{ID: fmt.Sprintf("verif%d", ti), SMTPOpts: smtp.MailOptions{UTF8: true}}
 			d, err := tgt.Start(ctx, meta, "sender@example.com")
@@ -114,7 +119,12 @@ func TestVerif_C09Remote(t *testing.T) {
 			if anyOK {
 				hdr := textproto.Header{}
 				hdr.Add("Subject", "x")
-				d.(module.PartialDelivery).BodyNonAtomic(ctx, coll, hdr, buffer.MemoryBuffer{Slice: []byte("hi\r\n")})
+				var body buffer.Buffer = buffer.MemoryBuffer{Slice: []byte("hi\r\n")}
+				if bodyBreaks {
+					body = testutils.FailingBuffer{Blob: []byte("hi\r\n"), IOError: errors.New("spool read error")}
+					stats["body-breaks"]++
+				}
+				d.(module.PartialDelivery).BodyNonAtomic(ctx, coll, hdr, body)
 			}
 			d.Commit(ctx)
 			rt := make([]string, len(rcpts))
